@@ -394,4 +394,149 @@ case=> uFx uFs [sp ch]; rewrite !big_cons (IH _ _ uFs ch); congr (_ + _).
 by case: x sp uFx {ch uFs} => p f /= sp uFx; apply: contribution_is_nll sp uFx.
 Qed.
 
+
+(* ---------------------------------------------------------------- *)
+(* C03: variance rescaling = the same model with every covariance     *)
+(* multiplied by the scale                                            *)
+(* ---------------------------------------------------------------- *)
+Definition scale_us (c : F) us : ushock :=
+  match us with
+  | UP nu P cv u0 => @UP M n nu P (c *: cv) u0
+  | UNone cv u0 => @UNone M n (c *: cv) u0
+  end.
+Definition scale_period (c : F) p : period :=
+  @mkPeriod M n nw (p_ny p) (p_T p) (p_K p) (scale_us c (p_us p)) (p_v p) (p_Z p) (p_H p) (p_D p)
+            (c *: p_cov_w p) (p_w0 p) (p_y p).
+
+Lemma scale_P_u0 c us : P_u0 (scale_us c us) = P_u0 us.
+Proof. by case: us. Qed.
+Lemma scale_P_cov_u_Pt c us : P_cov_u_Pt (scale_us c us) = c *: P_cov_u_Pt us.
+Proof. by case: us => [nu P cv u0|cv u0] //=; rewrite -scalemxAr -scalemxAl. Qed.
+Lemma scale_ok c p : ok_period p -> ok_period (scale_period c p).
+Proof.
+case: p => ny T K us v Z H D cw w0 y [/= su sw]; split; rewrite /is_sym /=; last by rewrite linearZ /= sw.
+by case: us su => [nu P cv u0|cv u0] /=; rewrite /is_sym linearZ /= => ->.
+Qed.
+
+(* what the two runs share / how they differ, period by period *)
+Record scaled_fields (c : F) p (f : frec p) (f' : frec (scale_period c p)) : Prop := ScaledFields {
+  sc_a0 : f_a0 f' = f_a0 f;
+  sc_a1 : f_a1 f' = f_a1 f;
+  sc_pe : f_pe f' = f_pe f;
+  sc_y0 : f_y0 f' = f_y0 f;
+  sc_Q0 : f_Q0 f' = c *: f_Q0 f;
+  sc_Q1 : f_Q1 f' = c *: f_Q1 f;
+  sc_F : f_F f' = c *: f_F f;
+  sc_Fi : f_Fi f' = c^-1 *: f_Fi f;
+  sc_G : f_G f' = f_G f
+}.
+
+Lemma scale_step c a Q p (f : frec p) (f' : frec (scale_period c p)) :
+  c != 0 -> step_spec a Q f -> step_spec a (c *: Q) f' -> f_F f \in unitmx -> @scaled_fields c p f f'.
+Proof.
+move=> c0 sp sp' uF.
+have E0 : f_a0 f' = f_a0 f by rewrite (sp_a0 sp') (sp_a0 sp) /= scale_P_u0.
+have EQ0 : f_Q0 f' = c *: f_Q0 f.
+  by rewrite (sp_Q0 sp') (sp_Q0 sp) /= scale_P_cov_u_Pt -scalemxAr -scalemxAl scalerDr.
+have Ey : f_y0 f' = f_y0 f by rewrite (sp_y0 sp') (sp_y0 sp) /= E0.
+have EF : f_F f' = c *: f_F f.
+  by rewrite (sp_F sp') (sp_F sp) /= EQ0 -!scalemxAr -!scalemxAl scalerDr.
+have EFi : f_Fi f' = c^-1 *: f_Fi f.
+  rewrite (sp_Fi sp') (sp_Fi sp) EF invmxZ // unitmxE detZ unitrM unitrX ?unitfE //=.
+  by move: uF; rewrite unitmxE unitfE.
+have EG : f_G f' = f_G f.
+  rewrite (sp_G sp') (sp_G sp) /= EQ0 EFi -!scalemxAr -!scalemxAl scalerA mulVf // scale1r.
+  by [].
+have Epe : f_pe f' = f_pe f by rewrite (sp_pe sp') (sp_pe sp) /= Ey.
+split=> //.
+- by rewrite (sp_a1 sp') (sp_a1 sp) E0 EG Epe.
+- by rewrite (sp_Q1 sp') (sp_Q1 sp) /= EQ0 EG -scalemxAr scalerBr.
+Qed.
+
+Lemma flogX x k : x != 0 -> flog (x ^+ k) = k%:R * flog x.
+Proof.
+move=> x0; elim: k => [|k IH]; first by rewrite expr0 flog1 mul0r.
+by rewrite exprS flogM ?expf_neq0 // IH -add1n natrD mulrDl mul1r.
+Qed.
+
+(* the likelihood pieces of a period of the rescaled model *)
+Lemma scaled_pieces c a Q p (f : frec p) (f' : frec (scale_period c p)) :
+  c != 0 -> step_spec a Q f -> f_F f \in unitmx -> @scaled_fields c p f f' ->
+  [/\ num_obs (mkFper _ f') = num_obs (mkFper p f),
+      qf (mkFper _ f') = qf (mkFper p f) / c &
+      ld (mkFper _ f') = ld (mkFper p f) + (p_ny p)%:R * flog c].
+Proof.
+move=> c0 sp uF sf; split=> //.
+- by rewrite /qf /pe_Fi_pe /= (sc_pe sf) (sc_Fi sf) -scalemxAr -scalemxAl mxE mulrC.
+- have dFi : \det (f_Fi f) != 0.
+    by rewrite (sp_Fi sp) det_inv invr_eq0; move: uF; rewrite unitmxE unitfE.
+  rewrite /ld /log_det_F /det_Fi /= (sc_Fi sf) detZ flogM ?expf_neq0 ?invr_eq0 //.
+  rewrite flogX ?invr_eq0 // flogV //.
+  by rewrite mulrDr mulrN !mulN1r opprK addrC.
+Qed.
+
+Definition QFs (fs : seq fper) := QF_of fs.
+
+(* whole runs of the original and of the rescaled model, related period by period *)
+Fixpoint scaled_runs (c : F) (fs fs' : seq fper) : Prop :=
+  match fs, fs' with
+  | [::], [::] => True
+  | x :: r, x' :: r' =>
+      (exists (f' : frec (scale_period c (fp x))),
+          x' = mkFper (scale_period c (fp x)) f' /\ @scaled_fields c (fp x) (ff x) f')
+      /\ scaled_runs c r r'
+  | _, _ => False
+  end.
+
+Lemma krun_scaled c a Q ps : c != 0 -> is_sym Q -> all_ok ps -> all_unit (krun a Q ps) ->
+  scaled_runs c (krun a Q ps) (krun a (c *: Q) [seq scale_period c p | p <- ps]).
+Proof.
+move=> c0; elim: ps a Q => [|p ps IH] a Q sQ; first by [].
+case=> okp okps; rewrite map_cons !krun_cons; case=> uF uFs.
+have sp := kf_step_spec a sQ okp.
+have scQ : is_sym (c *: Q) by rewrite /is_sym linearZ /= sQ.
+have sp' := kf_step_spec a scQ (scale_ok c okp).
+have sf := scale_step c0 sp sp' uF.
+split; first by exists (kstep a (c *: Q) (scale_period c p)).
+by rewrite (sc_a1 sf) (sc_Q1 sf); apply: IH => //; exact: sp_Q1s sp.
+Qed.
+
+Lemma scaled_sums c (fs fs' : seq fper) a Q :
+  c != 0 -> step_chain a Q fs -> all_unit fs -> scaled_runs c fs fs' ->
+  [/\ N_of fs' = N_of fs, QF_of fs' = QF_of fs / c & LD_of fs' = LD_of fs + (N_of fs)%:R * flog c].
+Proof.
+move=> c0; rewrite /N_of /QF_of /LD_of.
+elim: fs fs' a Q => [|x fs IH] [|x' fs'] a Q //=; first by rewrite !big_nil mul0r mul0r addr0.
+case=> sp ch [uF uFs] [[f' [-> sf]] sr].
+have [E1 E2 E3] := IH _ _ _ ch uFs sr.
+have [P1 P2 P3] := scaled_pieces c0 sp uF sf.
+rewrite !big_cons E1 E2 E3 P1 P2 P3 -!/(num_obs _) natrD.
+split=> //; first by rewrite mulrDl.
+have -> : {| fp := fp x; ff := ff x |} = x by case: (x).
+by rewrite /num_obs mulrDl addrACA.
+Qed.
+
+(* C03: the likelihood reported with rescale_variance=True is the plain likelihood of the model whose
+   covariances (initial MSE, transition and measurement shock covariances) are all multiplied by
+   var_scale = sum pe'F^-1 pe / sum n_t; the means, gains and prediction errors of the two runs
+   coincide and every MSE of the rescaled run is var_scale times the original one (scaled_runs) *)
+Theorem rescale_is_scaled_model a Q ps :
+  is_sym Q -> all_ok ps -> all_unit (krun a Q ps) ->
+  let fs := krun a Q ps in
+  N_of fs != 0%N -> QF_of fs != 0 ->
+  let vs := l_var_scale (likelihood true fs) in
+  let fs' := krun a (vs *: Q) [seq scale_period vs p | p <- ps] in
+  scaled_runs vs fs fs' /\ l_nll (likelihood true fs) = l_nll (likelihood false fs').
+Proof.
+move=> sQ ok uF fs Nnz Qnz vs fs'.
+have [Evs Enll] := nll_true Nnz.
+have vs0 : vs != 0.
+  by rewrite /vs Evs mulf_neq0 // invr_eq0 pnatr_eq0.
+have sr : scaled_runs vs fs fs' by apply: krun_scaled.
+split=> //.
+have [E1 E2 E3] := scaled_sums vs0 (krun_chain a sQ ok) uF sr.
+rewrite (proj2 (nll_false fs')) E1 E2 E3 Enll -Evs -/vs.
+by congr (_ * _); ring.
+Qed.
+
 End KalmanProofs.
